@@ -54,6 +54,10 @@ type c07Quirks struct {
 	AppendDefaultsTS bool
 	ApplyDefaultsTS  bool
 	HasChurn         bool
+	// ApplyBelowLEOLenient: a follower apply whose indexes lie at or below the
+	// log end is a documented duplicate-prefix skip (in-memory double), not an
+	// error; wrong bases are then only generated above the log end.
+	ApplyBelowLEOLenient bool
 }
 
 type c07TrimRes struct {
@@ -169,6 +173,7 @@ func c07Intersect(surfs []c07Surface) c07Quirks {
 		q.AppendDefaultsTS = q.AppendDefaultsTS || o.AppendDefaultsTS
 		q.ApplyDefaultsTS = q.ApplyDefaultsTS || o.ApplyDefaultsTS
 		q.HasChurn = q.HasChurn && o.HasChurn
+		q.ApplyBelowLEOLenient = q.ApplyBelowLEOLenient || o.ApplyBelowLEOLenient
 	}
 	return q
 }
@@ -620,7 +625,7 @@ func (d *c07Driver) stepApply(ch *c07Chan) {
 	wrong := d.rng.IntN(6) == 0
 	if wrong {
 		baseSeq = ch.LEO + 2 + d.rng.Uint64N(3)
-		if d.rng.IntN(2) == 0 && ch.LEO > 0 {
+		if d.rng.IntN(2) == 0 && ch.LEO > 0 && !d.q.ApplyBelowLEOLenient {
 			baseSeq = 1 + d.rng.Uint64N(ch.LEO)
 		}
 	}
